@@ -225,6 +225,8 @@ pub fn run(case: &Case, full: bool, fill: u8, out: &mut String) {
         "u64u8" => go!(u64, u8),
         "u16u32" => go!(u16, u32),
         "i64u16" => go!(i64, u16),
+        "u8u8" => go!(u8, u8),
+        "u16u16" => go!(u16, u16),
         "ckey" => go!(CKey, u64),
         other => panic!("unknown layout {}", other),
     }
